@@ -104,10 +104,10 @@ Definition part_rows (I : mgs_inst) (k : nat) : list row :=
                             (zipn 0 (snd cc))) (zipn 0 (parts_of I))
   end.
 
-Definition mgs_cols (pub : Q) (I : mgs_inst) (k : nat) : list col :=
+Definition mgs_cols (pub piub : Q) (I : mgs_inst) (k : nat) : list col :=
   map (fun i => qcol (Gen i) 0%Q (mg_total I) (mg_int I)) (layers k) ++
   flat_map (fun i => map (fun j => qcol (Xv i j) 0%Q (x_ub I) true) (idxs (mg_numbers I))) (layers k) ++
-  flat_map (fun i => map (fun j => qcol (Pij i j) 0%Q (mg_total I) (mg_int I)) (idxs (mg_numbers I))) (layers k) ++
+  flat_map (fun i => map (fun j => qcol (Pij i j) 0%Q piub (mg_int I)) (idxs (mg_numbers I))) (layers k) ++
   (if mult1 I then []
    else flat_map (fun j => flat_map (fun i => intprod_cols (Pij i j) 0%Q pub (num_bits pub)) (layers k)) (idxs (mg_numbers I))) ++
   part_cols I k.
@@ -128,11 +128,17 @@ Definition mgs_rows (pub : Q) (I : mgs_inst) (k : nat) : list row :=
   sym_rows k ++
   part_rows I k.
 
-Definition encode_mgs_gen (pub : Q) (I : mgs_inst) (k : nat) : milp :=
-  {| cols := mgs_cols pub I k; rows := mgs_rows pub I k; obj := []; maximize := false |}.
-Definition encode_mgs (I : mgs_inst) (k : nat) : milp := encode_mgs_gen (prod_ub I) I k.
+(* upper bound of the pi columns: total if max_multiplicity == 1 else max([total] + numbers) (a068bcc);
+   before that fix: total ([encode_mgs_pi_old]) *)
+Definition pi_ub (I : mgs_inst) : Q := if mult1 I then mg_total I else list_max (mg_total I) (mg_numbers I).
+
+Definition encode_mgs_gen (pub piub : Q) (I : mgs_inst) (k : nat) : milp :=
+  {| cols := mgs_cols pub piub I k; rows := mgs_rows pub I k; obj := []; maximize := false |}.
+Definition encode_mgs (I : mgs_inst) (k : nat) : milp := encode_mgs_gen (prod_ub I) (pi_ub I) I k.
 (* old behaviour (before b959a54): bit vector sized from total only *)
-Definition encode_mgs_old (I : mgs_inst) (k : nat) : milp := encode_mgs_gen (mg_total I) I k.
+Definition encode_mgs_old (I : mgs_inst) (k : nat) : milp := encode_mgs_gen (mg_total I) (mg_total I) I k.
+(* old behaviour (before a068bcc): products bounded by total also when multiplicities are allowed *)
+Definition encode_mgs_pi_old (I : mgs_inst) (k : nat) : milp := encode_mgs_gen (prod_ub I) (mg_total I) I k.
 
 (* ---- solve(): extra_cuts = sum(len(c) - 1 for c in partition_constraints or [])
                for k in range(lowerbound, max(lowerbound + 1, len(initial_numbers) + 2 + extra_cuts)) ----
